@@ -748,7 +748,7 @@ SUBCHECKS = [
         "roundtrip",
         oracle,
         strategy=strat,
-        budget={"quick": 40, "thorough": 1500},
+        budget={"quick": 120, "thorough": 1500},
         rule="generated single-part scores (pickups, bar-line signature changes, ties, grace notes, chords, 1-3 voices, 1-2 staves, tuplets, articulations) with a performed part aligned note by note (match/deletion/insertion/ornament, pedals, arbitrary ppq/mpq) are saved with save_match and loaded with load_match(create_score=True); non-trivial = (>=1 deletion and >=1 insertion) or a pickup or a beat unit other than the quarter",
         known=KNOWN,
         floors={"has-ornament": 0.1, "pedal": 0.15, "pickup": 0.08, "non-quarter-beat": 0.15, "grace": 0.05, "tie-chain": 0.1, "assume-unfolded-false": 0.15},
@@ -1153,7 +1153,7 @@ SUBCHECKS.append(
         "duplicates",
         dup_oracle,
         strategy=lambda tier: dup_case(tier),
-        budget={"quick": 25, "thorough": 600},
+        budget={"quick": 60, "thorough": 600},
         rule="small files (formats 1.0.0 and 0.5.0) written by the harness with repeated identical lines, deletions/insertions that conflict with a match, several deletions/insertions with one id, several matches with one id; loaded alignment and performed notes compared with the documented resolution computed by an independent reader; non-trivial = at least one line is dropped by the resolution rules",
         known={"loaded-performed-part-clock": _k_clock_detail},
         floors={"deletion-conflicts-with-match": 0.1, "insertion-conflicts-with-match": 0.1, "repeated-identical-line": 0.1},
